@@ -22,7 +22,9 @@ PAYLOADS = {
     'u64': ['u64'],
 }
 
-INNER = '''#[derive(Clone, Copy, Debug, PartialEq, Eq, PartialOrd, Ord)]
+INNER = '''pub const KC: u8 = 7;
+pub const KI: i32 = -7;
+#[derive(Clone, Copy, Debug, PartialEq, Eq, PartialOrd, Ord)]
 pub enum Inner { P, Q, R }
 impl Sym for Inner {
     fn sym() -> Self { match kani::any::<u8>() % 3 { 0 => Inner::P, 1 => Inner::Q, _ => Inner::R } }
@@ -35,14 +37,20 @@ VN = ['Va', 'Vb', 'Vc', 'Vd']
 
 
 def discs_of(dspec, n):
-    """dspec: list of explicit values or None per variant -> effective discriminants"""
+    """dspec: list of explicit values, (expression, value) pairs or None per variant -> effective discriminants"""
     out = []
     cur = -1
     for i in range(n):
         d = dspec[i] if dspec and i < len(dspec) else None
+        if isinstance(d, tuple):
+            d = d[1]
         cur = d if d is not None else cur + 1
         out.append(cur)
     return out
+
+
+def disc_text(d):
+    return d[0] if isinstance(d, tuple) else d
 
 
 def build(payloads, repr_, dspec, traits):
@@ -51,11 +59,11 @@ def build(payloads, repr_, dspec, traits):
         tys = PAYLOADS[pc]
         d = dspec[i] if dspec and i < len(dspec) else None
         if tys is None:
-            variants.append(V(VN[i], 'unit', [], disc=d))
+            variants.append(V(VN[i], 'unit', [], disc=disc_text(d)))
         elif pc == 'u8x2n':
-            variants.append(V(VN[i], 'named', [F(tys[0], 'x'), F(tys[1], 'y')], disc=d))
+            variants.append(V(VN[i], 'named', [F(tys[0], 'x'), F(tys[1], 'y')], disc=disc_text(d)))
         else:
-            variants.append(V(VN[i], 'tuple', [F(ty) for ty in tys], disc=d))
+            variants.append(V(VN[i], 'tuple', [F(ty) for ty in tys], disc=disc_text(d)))
     tr = [(x, {}) for x in traits]
     return T('enum', 'En', variants, tr, repr=repr_)
 
@@ -125,7 +133,7 @@ def emit(modname, payloads, repr_, dspec, mode):
     assert!(r == o, "enum ordering differs from declared-discriminant oracle");
 }}
 '''
-    cfgid = f'enum[{",".join(payloads)}]/repr={repr_}/disc={dspec}/{mode}'
+    cfgid = f'enum[{",".join(payloads)}]/repr={repr_}/disc={[disc_text(d) if d is not None else None for d in dspec] if dspec else None}/{mode}'
     sample = dict(type_definition=render_type(t), discriminants=discs)
     return Module(modname, cfgid, body, [h], sample=sample, classes=classes_for(payloads, repr_, dspec), functions=FUNCTIONS)
 
@@ -166,9 +174,34 @@ DSETS = [
 ]
 
 
+# constant-expression discriminants (only legal / accepted under an integer repr): operators binding
+# looser and tighter than `+`, constants, byte literals, followed by implicit variants
+EXPR_DSETS = [
+    ('u8', [('1 << 4', 16), None, ('20', 20)]),
+    ('u8', [('KC', 7), None, ("b'a'", 97)]),
+    ('u8', [('0x10 | 0x03', 19), None, ('18', 18)]),
+    ('u8', [('2 * 3', 6), None, ('1', 1)]),
+    ('u8', [('KC + 1', 8), None, None]),
+    ('i32', [('KI', -7), None, ('-(2)', -2)]),
+    ('i32', [('6 & 3', 2), None, ('1 ^ 1', 0)]),
+    ('u8', [('48 >> 1', 24), None, ('23', 23)]),
+    ('i32', [('-KI', 7), None, ('KI - 1', -8)]),
+]
+
+
+def expr_configs():
+    out = []
+    for r, ds in EXPR_DSETS:
+        n = len(ds)
+        out.append((['none'] * n, r, ds))
+        out.append((['u8', 'none', 'bool'][:n], r, ds))
+        out.append((['none', 'u8x2n', 'opt'][:n], r, ds))
+    return out
+
+
 def all_configs():
     """the whole grammar (thorough)"""
-    out = []
+    out = expr_configs()
     pay = list(PAYLOADS.keys())
     # 1. layout classes without explicit discriminants: every payload combination up to 2 variants,
     #    a structured set of 3-variant ones, with every repr
@@ -218,6 +251,8 @@ def quick_configs(seed):
             (['opt', 'opt'], None, None), (['bool', 'bool'], None, None), (['char', 'char', 'none'], None, None), (['none', 'none', 'none'], None, [2, 1, 0])]
     for w in want:
         core.append(w)
+    ec = expr_configs()
+    core += ec[::3] + ec[1::6]
     rng = random.Random(seed * 104729 + 5)
     extra = rng.sample(allc, 14)
     return core + extra
@@ -231,7 +266,7 @@ def gen(tier, seed):
     for (p, r, d) in cfgs:
         modes = ['ord', 'pord'] if tier != 'quick' else [['ord', 'pord', 'ordonly'][n % 3], ['pord', 'ord', 'ord'][n % 3]]
         for mode in dict.fromkeys(modes):
-            key = (tuple(p), r, tuple(d) if d else None, mode)
+            key = (tuple(p), r, str(d), mode)
             if key in seen:
                 continue
             seen.add(key)
@@ -245,7 +280,8 @@ RULE = ('one config = one enum definition (payload types x repr x explicit discr
         'Non-trivial = harness passed and the Less/Equal/Greater/different-variant witnesses that the config admits were all SATISFIED.')
 BOUNDS = dict(max_variants=3, payload_types=sorted(PAYLOADS.keys()), reprs=['none', 'u8', 'i8', 'u16', 'i16', 'i32', 'u32', 'i64', 'u64', 'isize', 'usize', 'C', 'C, u8'],
               discriminant_sets=[str(d) for d in DSETS], neighbour_bytes=4,
-              outside=['payload types outside the list', 'repr(packed)/repr(align)', 'targets other than x86_64', 'non-literal discriminant expressions'])
+              constant_expression_discriminants=[str(x) for x in EXPR_DSETS],
+              outside=['payload types outside the list', 'repr(packed)/repr(align)', 'targets other than x86_64', 'discriminant expressions outside the listed ones'])
 ASSUME = ['Kani 0.68 / CBMC 6.11 / CaDiCaL; rustc nightly-2026-08-21 layout for x86_64 (niche / tag-less / narrow-tag enums laid out as rustc lays them out)',
           "char payloads are drawn from three 256-value planes (ASCII, 0xD7xx, 0x10FFxx); &'static u8 payloads point into a 4-element static",
           'discriminant table and payload comparison oracle written from the config by vk/p_c04.py']
